@@ -106,6 +106,13 @@ def check(out, sub, sa, case, g, rng, tag, fixed_pts=()):
                         cs[key] = [0, p]
                     cs[key][0] += cg.coefficient
         cs = {v[1]: v[0] for v in cs.values()}
+        if case["boundary"] and (not grids or sum(cg.coefficient for cg, _ in grids) != 1):
+            # with boundary points the corners of an area are grid points of every component grid of the area: an area without
+            # any computed component grid (or with coefficients that do not sum to 1) carries no valid local combination
+            out.bad(sub + "/area-without-valid-local-combination/%s" % ("no-component-grid-computed" if not grids else "coefficients-do-not-sum-to-one"),
+                    "%s area %s-%s coarsening %d lmax %s: computed component grids %s" % (
+                        tag, list(o.start), list(o.end), o.coarseningValue, list(sa.lmax), [(list(lv), cg.coefficient) for cg, lv in grids][:6]))
+            break
         bad = [(p, v) for p, v in cs.items() if v != 1]
         if bad:
             out.bad(sub + "/area-coefficient-sum-not-one", "%s area %s-%s coarsening %d: %s" % (
@@ -193,6 +200,23 @@ def strategy(tier):
     return drive.st_es_case(tier=tier, scales=True, dim4=True)
 
 
+def fixed_cases():
+    """a systematic family that every run contains: split_single_dim=True with an integrand that is symmetric in its arguments
+    (several dimensions split at once), every coarsening version, 0-2 splits before an extend, under decision patterns that
+    refine several areas of different depth in one step (multi-dimension split and lmax-raising extend inside one step)"""
+    cases = []
+    for version in (0, 1, 2):
+        for dim in (2, 3):
+            for nref in (0, 1, 2):
+                for mode, tape in ((0, [2, 7, 3, 9, 1]), (0, [4, 0, 13, 2, 2, 11, 8]), (3, [0, 5, 1, 3]), (10, [0, 1, 40, 45, 50, 9, 12, 20]),
+                                   (10, [1, 2, 55, 20, 33, 5, 41, 60])):
+                    cases.append(dict(kind="es", dim=dim, lmin=1, lmax=2, a=[0.0] * dim, b=[1.0] * dim, version=version, nref=nref,
+                                      boundary=True, auto=False, ssd=True, estimator="tape", maxev=1200 if dim == 2 else 900,
+                                      maxsteps=6 if dim == 2 else 4, tape=tape, mode=mode, fseed=3 * (version + 3 * nref + 10 * mode + 1),
+                                      legs=None, rerun=None))
+    return cases
+
+
 def selftest():
     case = dict(kind="es", dim=2, lmin=1, lmax=2, a=[0.0, 0.0], b=[1.0, 1.0], version=0, nref=1, boundary=True, auto=False,
                 ssd=False, estimator="tape", maxev=200, maxsteps=3, tape=[2, 0, 0, 2], mode=0, fseed=3)
@@ -217,4 +241,4 @@ def selftest():
     assert seen
 
 
-SUBS = [Sub("history", strategy, run, dict(quick=300, thorough=6000), budget_s=dict(quick=60, thorough=600))]
+SUBS = [Sub("history", strategy, run, dict(quick=300, thorough=6000), budget_s=dict(quick=60, thorough=600), fixed_cases=fixed_cases)]
